@@ -44,7 +44,7 @@ RULE_OLD = ('cases = (pool min/max in {0..4}x{1..6} incl. invalid, or WorkThread
 
 
 RULE = ('cases = (pool min/max in {0..4}x{1..6} incl. invalid, or WorkThread) x 1-200 tasks (priorities -3..3, bodies 0-3 ms, callbacks) interleaved '
-        'with status/cancel/snapshot/hammer/settle ops, cleanup at a random point, PRNG-seeded delays (worker: before mutex lock, between predicate and '
+        'with status/cancel/snapshot/hammer/settle ops and offloop phases (the loop is stopped, a burst of tasks with callbacks is submitted and finishes, the loop runs again), cleanup at a random point, PRNG-seeded delays (worker: before mutex lock, between predicate and '
         'wait, after unlock; loop thread inside cleanup: after unlock); worker-level records (threads created per execute, quiescent snapshots, thread '
         'start/end) checked against the model\'s spawn / voluntary-exit decisions as model-internal observables; non-trivial = at least one task ran AND '
         '(an answer waiting/executing/cancelled was observed OR >= 2 workers ran bodies OR the pick-order clause was asserted on >= 1 pair OR a spawn / '
@@ -95,7 +95,15 @@ def gen_case(rng, tier):
         for _ in range(rng.choice([1, 2, 3, 6])): ex()
         ops.append('drain')
         ops.append('sleep %d' % rng.choice([0, 100, 500, 1500, 4000, 6000, 8000, 10000]))
-    elif shape < 0.40:
+    elif shape < 0.36:
+        # completion callbacks posted while the loop is NOT running (between two runLoop() calls): several workers
+        # finish tiny tasks with callbacks about together and post to a stopped loop
+        for _ in range(rng.choice([0, 0, 1, 3])): ex()
+        for _ in range(rng.choice([1, 2, 3])):
+            ops.append('offloop %d %d' % (rng.choice([2, 4, 8, 16, 32]), rng.choice([0, 0, 0, 50, 300])))
+            if rng.random() < 0.5: probe()
+        if rng.random() < 0.5: ops.append('settle')
+    elif shape < 0.42:
         # (e) a task submitted while the last worker is on its way out must still be executed
         for _ in range(rng.choice([1, 1, 2, 3])): ex()
         for _ in range(rng.choice([1, 2, 3])):
@@ -141,6 +149,7 @@ def gen_case(rng, tier):
 def gen(rng, tier):
     n = 220 if tier == 'quick' else 2500
     # malformed stream: both sides answer bad-op
+    yield ['offloop 4 0', 'cfg pool 2 2 5 0', 'offloop 0 0', 'offloop 65 0', 'offloop 2 x', 'offloop 2 0', 'cleanup', 'offloop 2 0', 'fin']
     yield ['exec 0 0 0', 'cfg pool 1 x 1 0', 'cfg pool 2 2 5 0', 'cfg pool 1 1 1 0', 'exec 0 2 0', 'exec 101 0 0', 'stat 0', 'exec 1 1 100',
            'stat 1', 'cancel x', 'snap 1', 'frob', 'hammer 999999', 'cleanup', 'fin', 'fin']
     # directed
@@ -154,6 +163,10 @@ def gen(rng, tier):
     yield ['cfg pool 1 3 18 300', 'settle', 'exec 0 0 300', 'settle', 'exec 0 0 300', 'exec 0 0 300', 'exec 0 0 300', 'settle', 'snap',
            'exec 0 1 100', 'settle', 'cleanup', 'fin']
     yield ['cfg pool 0 3 19 900', 'exec 0 0 100', 'exec 0 0 100', 'exec 0 0 100', 'drain', 'sleep 8000', 'cleanup', 'fin']
+    yield ['cfg pool 4 4 21 0', 'offloop 16 0', 'offloop 32 0', 'settle', 'offloop 8 100', 'cleanup', 'fin']
+    yield ['cfg pool 0 6 22 150', 'offloop 32 0', 'stat 3', 'offloop 16 50', 'drain', 'cleanup', 'fin']
+    yield ['cfg pool 2 3 23 300', 'exec 0 1 500', 'offloop 8 0', 'hammer 1000', 'offloop 24 0', 'settle', 'cleanup', 'fin']
+    yield ['cfg wt 0 0 24 0', 'offloop 8 0', 'offloop 8 100', 'cleanup', 'fin']
     yield ['cfg wt 0 0 16 300', 'exec 0 1 1000', 'exec 0 1 0', 'exec 0 0 0', 'hammer 2000', 'cancel 2', 'drain', 'cleanup', 'cancel 0', 'stat 1', 'exec 0 0 0', 'fin']
     for _ in range(n):
         yield gen_case(rng, tier)
@@ -170,7 +183,7 @@ def nontrivial(ops, model_lines):
     tags = ' '.join(l for l in model_lines if l.startswith('B ')).split()
     if 'ran' not in tags: return None
     return 1 if any(t in tags for t in ('stat-w', 'stat-e', 'cancel-0', 'cancel-2', 'multi-worker', 'order-checked', 'spawn-checked-0',
-                                       'spawn-checked-1', 'exit-rule-checked')) else None
+                                       'spawn-checked-1', 'exit-rule-checked', 'offloop')) else None
 
 
 def fingerprint(ops, d):
